@@ -225,15 +225,27 @@ def Registry.resolveName (r : Registry) (n : BList) : BList := (alookup n r.name
 def Registry.isActive (r : Registry) (a : RR) : Bool :=
   ((alookup a.getName r.active).getD []).any (a.matchesRR ·)
 
+/-- the probe after record `a` of service `svcName` came to it at `start`: a record that is not
+    matched in the probe joins it, and when the probe began before `start` its schedule starts
+    over at `start` (repair of D33: the new record must be probed three times itself) -/
+def Probe.join (p : Probe) (a : RR) (svcName : BList) (start : Nat) : Probe :=
+  if p.records.any (a.matchesRR ·) then { p with waiting := sinsert svcName p.waiting }
+  else if p.start < start then
+    { records := insertRR a p.records, waiting := sinsert svcName p.waiting, start := start, next := start }
+  else { p with records := insertRR a p.records, waiting := sinsert svcName p.waiting }
+
+/-- does `a` make the probe start over? -/
+def Probe.restarts (p : Probe) (a : RR) (start : Nat) : Bool :=
+  !p.records.any (a.matchesRR ·) && decide (p.start < start)
+
 /-- second half of `is_probing_done` (the record is not active): the probe of the record's
     name is created if need be, its `next_send` goes to `new_timers`, the record joins the
-    probe unless a matching one is there, the service waits for the probe -/
+    probe unless a matching one is there, the service waits for the probe.  When the probe
+    starts over, the new start goes to `new_timers` too. -/
 def Registry.probeInsert (r : Registry) (a : RR) (svcName : BList) (start : Nat) : Registry :=
   let p := (alookup a.getName r.probing).getD (Probe.new start)
-  let p' : Probe :=
-    if p.records.any (a.matchesRR ·) then { p with waiting := sinsert svcName p.waiting }
-    else { p with records := insertRR a p.records, waiting := sinsert svcName p.waiting }
-  { r with probing := aset a.getName p' r.probing, newTimers := r.newTimers ++ [p.next] }
+  { r with probing := aset a.getName (p.join a svcName start) r.probing,
+           newTimers := r.newTimers ++ p.next :: (if p.restarts a start then [start] else []) }
 
 /-- `is_probing_done`, state part -/
 def Registry.probingDoneReg (r : Registry) (a : RR) (svcName : BList) (start : Nat) : Registry :=
@@ -454,15 +466,34 @@ def goodbyesOn (svc : Service) (i : MyIntf) : List (Bool × Packet) :=
 def goodbyes (intfs : List MyIntf) (svc : Service) : List (Nat × Bool × Packet) :=
   intfs.flatMap fun i => (goodbyesOn svc i).map fun (v4, p) => (i.index, v4, p)
 
+/-- `DnsRegistry::remove_waiting_service` (repair of D30): the unregistered service no longer
+    waits for any probe, and a probe that no service waits for any more is dropped -/
+def Registry.removeWaiting (r : Registry) (svcName : BList) : Registry :=
+  { r with probing := r.probing.filterMap fun e =>
+      if e.2.waiting.contains svcName && (e.2.waiting.filter (· != svcName)).isEmpty then none
+      else some (e.1, { e.2 with waiting := e.2.waiting.filter (· != svcName) }) }
+
+/-- the registries after `unregister`: on every interface of the daemon the service is taken
+    out of the probes it waits for -/
+def purgeWaiting (s : State) (svcName : BList) : State :=
+  s.intfs.foldl (fun st i =>
+    match alookup i.index st.registries with
+    | some r => st.setRegistry i.index (r.removeWaiting svcName)
+    | none => st) s
+
+/-- the interfaces on which the service has been announced: where a goodbye is due (repair of D30) -/
+def announcedIntfs (s : State) (svc : Service) : List MyIntf := s.intfs.filter fun i => svc.announcedOn i.index
+
 /-- `exec_command_unregister` -/
 def execUnregister (s : State) (now : Nat) (name : BList) (ch : Nat) : State × List Out :=
   match alookup (lower name) s.services with
   | none => (s, [.unregReply ch false])
   | some svc =>
-    let gs := goodbyes s.intfs svc
-    ({ s with services := aerase (lower name) s.services,
-              reruns := s.reruns ++ gs.map (fun (i, v4, p) => .unregisterResend (now + 120) p i v4),
-              timers := s.timers ++ gs.map (fun _ => now + 120) },
+    let gs := goodbyes (announcedIntfs s svc) svc
+    ({ (purgeWaiting s svc.fullname) with
+         services := aerase (lower name) s.services,
+         reruns := s.reruns ++ gs.map (fun (i, v4, p) => .unregisterResend (now + 120) p i v4),
+         timers := s.timers ++ gs.map (fun _ => now + 120) },
      gs.map (fun (i, v4, p) => Out.send i v4 none p) ++ [.unregReply ch true])
 
 /-- `exec_command_unregister_resend` -/
@@ -471,10 +502,10 @@ def execUnregisterResend (s : State) (pkt : Packet) (ifIdx : Nat) (v4 : Bool) : 
   | some i => if i.hasFamily v4 then [.send ifIdx v4 none pkt] else []
   | none => []
 
-/-- `cleanup` at `Exit`: goodbye for every service; everything is forgotten -/
+/-- `cleanup` at `Exit`: goodbye for every service where it has been announced; everything is forgotten -/
 def cleanup (s : State) : State × List Out :=
   ({ s with services := [], reruns := [], stopped := true },
-   s.services.flatMap fun (_, svc) => (goodbyes s.intfs svc).map fun (i, v4, p) => Out.send i v4 none p)
+   s.services.flatMap fun (_, svc) => (goodbyes (announcedIntfs s svc) svc).map fun (i, v4, p) => Out.send i v4 none p)
 
 /-! ### `RegisterResend` -/
 
@@ -574,6 +605,12 @@ def probeSends (i : MyIntf) (pr : Probing) : List Out :=
     (if i.hasFamily true then [Out.send i.index true none { flags := 0, questions := pr.questions, authorities := pr.authorities }] else []) ++
     (if i.hasFamily false then [Out.send i.index false none { flags := 0, questions := pr.questions, authorities := pr.authorities }] else [])
 
+/-- the end of the body of `probing_handler` for one interface: the `new_timers` of its registry
+    - probes created or started over by a re-announcement or by the wake-ups - are armed -/
+def drainNewTimers (idx : Nat) (acc : State × List Out) : State × List Out :=
+  ({ (acc.1.setRegistry idx { (acc.1.registry idx) with newTimers := [] }) with
+       timers := acc.1.timers ++ (acc.1.registry idx).newTimers }, acc.2)
+
 /-- the body of `probing_handler` for one interface -/
 def probingOnIntf (now jitter : Nat) (acc : State × List Out) (i : MyIntf) : State × List Out :=
   let s := acc.1
@@ -584,7 +621,7 @@ def probingOnIntf (now jitter : Nat) (acc : State × List Out) (i : MyIntf) : St
     let ex := handleExpiredProbes pr.expired i.name pr.reg
     let s1 : State := { (s.setRegistry i.index ex.1) with timers := s.timers ++ pr.timers }
     let outs := acc.2 ++ probeSends i pr ++ ex.2.1.flatMap (notify s)
-    ex.2.2.foldl (wakeService now jitter i) (s1, outs)
+    drainNewTimers i.index (ex.2.2.foldl (wakeService now jitter i) (s1, outs))
 
 /-- `probing_handler` -/
 def probingHandler (s : State) (now jitter : Nat) : State × List Out :=
@@ -689,6 +726,20 @@ def tiebreak (now : Nat) (auths : List Wire.Rec) (reg : Registry) (q : Wire.Ques
         | .lt => { reg with probing := aset q.name { p with start := now + 1000, next := now + 1000 } reg.probing }
         | _ => reg
 
+/-- `probe.next_send != next_send` around the call of `tiebreaking`: was the probe postponed? -/
+def postponedTo (now : Nat) (auths : List Wire.Rec) (reg : Registry) (q : Wire.Question) : Option Nat :=
+  match alookup q.name reg.probing, alookup q.name (tiebreak now auths reg q).probing with
+  | some p, some p' => if p'.next != p.next then some p'.next else none
+  | _, _ => none
+
+/-- the timers `handle_query` arms while it walks the questions: one for every probe that a
+    lost tiebreak postponed (repair of D34) -/
+def tiebreakTimers (now : Nat) (auths : List Wire.Rec) : Registry → List Wire.Question → List Nat
+  | _, [] => []
+  | reg, q :: qs =>
+    (match postponedTo now auths reg q with | some t => [t] | none => []) ++
+      tiebreakTimers now auths (tiebreak now auths reg q) qs
+
 def clearFlush (r : RR) : RR := { r with flush := false }
 
 /-- the response packet of `handle_query`; legacy unicast echoes the id and the questions
@@ -706,7 +757,8 @@ def handleQuery (s : State) (now : Nat) (p : RxPkt) (i : MyIntf) : State × List
   | some reg =>
     let resp := p.msg.questions.foldl (answerQuestion p.msg.answers s.services i reg p.srcV4) {}
     let reg' := p.msg.questions.foldl (tiebreak now p.msg.authorities) reg
-    let s' := s.setRegistry p.ifIdx reg'
+    let s' : State := { (s.setRegistry p.ifIdx reg') with
+      timers := s.timers ++ tiebreakTimers now p.msg.authorities reg p.msg.questions }
     if resp.answers.isEmpty then (s', [])
     else
       (s',
